@@ -55,10 +55,38 @@ def replay(prop, path):
     print(json.dumps(v.get('what'), indent=1))
     case = v.get('payload', {}).get('case')
     if not case:
-        print('(no executable payload)')
+        print('(no executable payload: the replay file names the input; see "what" above)')
         return 0
     print(json.dumps(case['calls'], indent=1))
-    return 0
+    # re-execute: rebuild the host objects from the recorded projection, run the calls on the code under test, validate with TLC
+    from . import unparse
+    try:
+        heap, memo = case.get('heap0') or [], {}
+        nids = sorted(case.get('names0') or {})
+        names_py = [{k: unparse.py_value(x, heap, memo) for k, x in case['names0'][nid].items() if x.get('t') != 'hostfn'} for nid in nids]
+        host = {}
+        for k, b in (case.get('host') or {}).items() if isinstance(case.get('host'), dict) else []:
+            b2 = dict(b)
+            if b.get('h') == 'probe':
+                b2['ret'] = unparse.py_value(b['ret'], heap, memo)
+            host[k] = b2
+        calls = [{'src': c['src'], 'n': nids.index(c['nid']) if c['nid'] in nids else None, 'max': c['max']} for c in case['calls']]
+        scn = {'names': names_py, 'host': host, 'calls': calls, 'fresh': True}
+        cases = [c for c in vmrun.run_scenarios([scn]) if 'harness_error' not in c]
+        if not cases:
+            print('replay: the scenario could not be executed')
+            return 2
+        cases[0]['tid'] = 1
+        verdicts, res = vmrun.validate(cases, deviations=[])
+        vd = verdicts.get(1, {})
+        print('replay verdict of the specification: %s %s' % (vd.get('v'), vd.get('why', '')))
+        if vd.get('v') == 'rejected':
+            print('VIOLATION property=%s replay=%s' % (prop, path))
+            return 1
+        return 0
+    except Exception as e:      # noqa
+        print('replay: could not rebuild the scenario (%s: %s)' % (type(e).__name__, e))
+        return 2
 
 
 def check_C09(tier, seed):
